@@ -367,6 +367,12 @@ func (w *World) streamScript(a *Actor, st drpc.Stream, k int, side byte, sub int
 			err := st.MsgSend(&p, BadMarshalEnc{})
 			w.endOp(r, err)
 			a.logf("sendbad -> %v", err)
+		case "recvskip": // a receive whose encoding rejects the (intact) message; the receiver carries on
+			var b []byte
+			r := w.beginOp(a, "recvskip", k)
+			err := st.MsgRecv(&b, FailEnc{Msg: "harness: cannot decode", W: w})
+			w.endOp(r, err)
+			a.logf("recvskip -> %v", err)
 		case "recvbad": // a receive whose encoding rejects the (intact) message
 			var b []byte
 			r := w.beginOp(a, "recvbad", k)
